@@ -728,6 +728,11 @@ func (ex *Exec) modelTape(extra ...*term.T) ([]TapeEntry, bool) {
 			ex.S.Declare(e.t)
 		}
 	}
+	// the condition's own select nodes must be defined before the live selects are collected (a feasibility
+	// check answered without the solver has not defined them)
+	for _, e := range extra {
+		ex.S.Declare(e)
+	}
 	sels := ex.S.LiveSelects()
 	for _, n := range sels {
 		ex.S.Declare(n.A)
